@@ -202,8 +202,8 @@ impl Check for C02 {
     fn runs(&self, tier: Tier) -> u64 {
         self.grid_runs(tier)
             + match tier {
-                Tier::Quick => 100_000,
-                Tier::Thorough => 5_000_000,
+                Tier::Quick => 400_000,
+                Tier::Thorough => 40_000_000,
             }
     }
 
